@@ -94,7 +94,7 @@ def handle (j : Json) : Except String Json := do
     let u ← j.getObjValAs? (Array Nat) "u"
     let r := Verif.Gen.SessionId.sessionIdOfUuid (u.toList.map Char.ofNat)
     return Json.mkObj [("id", toJson (r.map (·.toNat)))]
-  let ops ← (← j.getObjValAs? (Array Json) "ops").toList.mapM getOp
+  let raw ← j.getObjValAs? (Array Json) "ops"
   let tbl ← match optField j "answers" with
     | some (.arr a) => a.toList.mapM (fun e => do
         let rq ← e.getArrVal? 0
@@ -105,8 +105,27 @@ def handle (j : Json) : Except String Json := do
         pure (rq', ans))
     | _ => pure []
   let cfg : Cfg Json Json := { answer := lookupAnswer tbl, noClient := Json.mkObj [] }
-  let r := run cfg ops
-  return Json.mkObj [
-    ("outs", Json.arr (r.2.map outJson).toArray),
-    ("snaps", Json.arr ((trace cfg ([] : S) ops).map storeJson).toArray)]
+  -- every op is one `step` of the model; `[now,"B",first,count,client,version]` is `count` consecutive
+  -- creates (ids first, first+1, …) reported as ONE step (one output, one snapshot) so that large stores stay cheap
+  let mut s : S := []
+  let mut outs : Array Json := #[]
+  let mut snaps : Array Json := #[]
+  for o in raw do
+    let k ← (← o.getArrVal? 1).getStr?
+    if k == "B" then
+      let now ← (← o.getArrVal? 0).getInt?
+      let first ← (← o.getArrVal? 2).getInt?
+      let count ← (← o.getArrVal? 3).getNat?
+      let c ← o.getArrVal? 4
+      let v ← o.getArrVal? 5
+      for i in [0:count] do
+        s := (step cfg s now (Op.create (first + i) c v)).1
+      outs := outs.push (Json.arr #["bulk", toJson count])
+    else
+      let (now, op) ← getOp o
+      let r := step cfg s now op
+      s := r.1
+      outs := outs.push (outJson r.2)
+    snaps := snaps.push (storeJson s)
+  return Json.mkObj [("outs", Json.arr outs), ("snaps", Json.arr snaps)]
 end Verif.Drv.Session
